@@ -116,9 +116,20 @@ class Family:
         return out
 
 
-def all_families():
+def all_families(only=None, errors=None):
     d = os.path.join(ROOT, "fam")
-    return [Family(n) for n in sorted(os.listdir(d)) if os.path.exists(os.path.join(d, n, "family.json"))]
+    out = []
+    for n in sorted(os.listdir(d)):
+        if only and n != only:
+            continue
+        if not (os.path.exists(os.path.join(d, n, "family.json")) and os.path.exists(os.path.join(d, n, "harness.c")) and os.path.exists(os.path.join(d, n, "driver.cpp"))):
+            continue
+        try:
+            out.append(Family(n))
+        except Exception as e:  # a broken family must not take the others down
+            if errors is not None:
+                errors.append("family %s cannot be parsed: %s" % (n, e))
+    return out
 
 
 # ------------------------------------------------------------------ lowering
@@ -211,7 +222,12 @@ def run_group(low, g, tier, keep=False, cell=None):
     os.makedirs(gdir, exist_ok=True)
     tu = os.path.join(gdir, "tu.c")
     open(tu, "w").write(low.tu_text(g))
-    a = g.attrs
+    a = dict(g.attrs)
+    if "unwind" in a and not a["unwind"].isdigit():   # e.g. unwind=VF_N+3, evaluated over the variant's defs
+        class Env(dict):
+            def __missing__(self, k):
+                return 0
+        a["unwind"] = str(int(eval(a["unwind"], {"__builtins__": {}}, Env(low.variant.get("defs", {})))))
     entry = "h_" + g.name
     gname = g.name + ("" if cell is None else "[%s=%d]" % cell)
     cdefs0 = ["-D%s=%d" % cell] if cell else []
@@ -476,7 +492,10 @@ def when_ok(g, variant):
     w = g.attrs.get("when")
     if not w:
         return True
-    env = dict(variant.get("defs", {}))
+    class Env(dict):
+        def __missing__(self, k):   # an undefined variant macro counts as 0, like in the C preprocessor
+            return 0
+    env = Env(variant.get("defs", {}))
     try:
         return bool(eval(w, {"__builtins__": {}}, env))
     except Exception as e:
@@ -503,7 +522,7 @@ def check_property(prop, tier, seed, keep=False, only_group=None, only_family=No
     lowered = []
     try:
         known, fixed = load_known()
-        fams = all_families()
+        fams = all_families(only_family, undecided)
         sel = select(fams, prop, tier, only_group, only_family)
         if not sel:
             raise Undecided("no obligation groups registered for " + prop)
@@ -564,8 +583,8 @@ def check_property(prop, tier, seed, keep=False, only_group=None, only_family=No
                     msg = "KNOWN-FINDING: property=%s %s [id=%s]" % (prop, known[fid]["what"], fid)
                     if msg not in known_hits:
                         known_hits.append(msg)
-                elif r["status"] == "UNDECIDED":
-                    undecided.append("probe %s %s.%s: %s" % (fid, r["family"], r["group"], r["reason"]))
+                elif r["status"] == "UNDECIDED":   # a probe is informational: it never decides the property
+                    lines.append("NOTE: probe of known finding %s in %s.%s gave no answer (%s)" % (fid, r["family"], r["group"], r["reason"][:120]))
                 else:
                     lines.append("NOTE: witness class of known finding %s does not fail in %s.%s" % (fid, r["family"], r["group"]))
                 continue
